@@ -23,6 +23,21 @@ def o_rescale(case):
     from bldfm.utils import get_source_area
     f = np.array(case["f"], dtype=float).reshape(case["shape"])
     g = np.array(case["g"], dtype=case["gdtype"]).reshape(case["shape"])
+    # the same numbers in another memory layout (Fortran order, a transposed view: data read with swapped dimensions, the
+    # output of another library): "a cell" is an index, not a memory position
+
+    def relayout(a, how):
+        if how == "F":
+            return np.asfortranarray(a)
+        if how == "T":
+            return np.ascontiguousarray(np.moveaxis(a, -1, 0)).transpose(*range(1, a.ndim), 0) if a.ndim > 1 else a
+        if how == "S":
+            big = np.zeros(tuple(2 * n for n in a.shape), dtype=a.dtype)
+            big[tuple(slice(None, None, 2) for _ in a.shape)] = a
+            return big[tuple(slice(None, None, 2) for _ in a.shape)]
+        return a
+    lay = case.get("layout") or ["C", "C"]
+    f, g = relayout(f, lay[0]), relayout(g, lay[1])
     out = get_source_area(f, g)
     if out.shape != g.shape:
         return fail("C20/shape", "rescaled field does not have the shape of g", None, list(g.shape), list(out.shape), 0)
@@ -159,13 +174,14 @@ def run(rng, tier, deep):
             g2 = fn().ravel()
             g = np.tile(g2, 2) if three_d else g2
             gd = "float64"
-        run_oracle(st, o_rescale, dict(f=f.tolist(), g=np.asarray(g).tolist(), gdtype=gd, shape=shape, perm=rng.permutation(n).tolist()))
+        run_oracle(st, o_rescale, dict(f=f.tolist(), g=np.asarray(g).tolist(), gdtype=gd, shape=shape, perm=rng.permutation(n).tolist(),
+                                       layout=[str(x) for x in rng.choice(["C", "C", "F", "T", "S"], size=2)]))
         if f.sum() > 0:
             ps = sorted(float(x) for x in rng.uniform(0.02, 1.0, 3)) + [1.0]
             run_oracle(st, o_percentile, dict(f=f.tolist(), shape=shape, dx=float(rng.uniform(0.5, 10)), dy=float(rng.uniform(0.5, 10)),
                                               coords=str(rng.choice(["2d", "1d"])) if not three_d else "3d", ps=ps, level=int(rng.integers(0, 2)) if three_d else 0,
                                               lam=float(rng.uniform(0.1, 10))))
     return finish(st, "non-negative fields (random, sparse, with ties and zeros, smooth), base fields random / f itself / integer-typed / the built-in "
-                  "geometric ones, 2-D and 3-D, 1-D and 2-D coordinates, fractions in (0,1]; correspondence (1e-12) of get_source_area with numpy's own "
+                  "geometric ones, 2-D and 3-D, C / Fortran / transposed-view / strided memory layouts of f and g, 1-D and 2-D coordinates, fractions in (0,1]; correspondence (1e-12) of get_source_area with numpy's own "
                   "argsort permutation handed to the model, of extract_percentile_contour and of the four geometric base functions; oracle: O(n^2) "
                   "brute-force defining sums with the tie freedom, antitone, increasing map, common permutation, dtype, fewest-cells / monotone / scaling", deep, 1e-12)
